@@ -476,6 +476,28 @@ def run(tier):
                 one(env, wrap(f, kx // 3), asg, False, ask_sat=False)       # one level under another operator
     pstat.update({"cases": len(rows) - n0, "returned_a_value": stats["partial_calls"] - before_calls})
     chk.cov["family_partial_no_completion"] = pstat
+    # ---------------- the same sub-term on both sides of a relation (C01's selfref family) -------
+    # rel(t, op(t, c)) / rel(op(t, c), t) / rel(op(t, c1), op(t, c2)) over an UNASSIGNED t, no completion: a value may
+    # only be returned when it is right for every completion (x u< x + 1 is false at all-ones); and under total models
+    n0 = len(rows)
+    with S.EnvCtx() as env:
+        m = env.formula_manager
+        d = S.Directed(env, rnd, tier)
+        for w in ((2, 4) if tier == "quick" else (1, 2, 3, 4)):
+            fs = d.selfref_bv(w, full=True)
+            seen = set()
+            fs = [f for f in fs if not (f in seen or seen.add(f))]
+            if tier == "quick":
+                fs = fs[::2] if w == 4 else fs[::3]
+            x = m.Symbol("rx%d" % w, BVType(w))
+            mx = (1 << w) - 1
+            for j, f in enumerate(fs):
+                one(env, f, {}, False, ask_sat=False)
+                if j % 4 == 0:
+                    tot = dict((s_, (m.BV(rnd.choice([mx, mx - 1, 0, 1 << (w - 1)]), w) if s_.symbol_type().is_bv_type() else m.Bool(rnd.random() < 0.5)))
+                               for s_ in f.get_free_variables())
+                    one(env, f, tot, True, ask_sat=f.get_type().is_bool_type())
+    chk.cov["family_selfref"] = {"cases": len(rows) - n0}
     # ---------------- the string hazard pool through every string operator ----------------------
     n0 = len(rows)
     with S.EnvCtx() as env:
